@@ -24,6 +24,10 @@ pub struct C16;
 /// The same tree as `E::to_expr`, built through the other half of the builder surface: enum
 /// constructors and the typed overloads (Var op f64, f64 op Var, Var op i32, Var & Var, bool
 /// constants, !Var, -Var ...).
+fn as_i32(f: f64) -> Option<i32> {
+    if f.fract() == 0.0 && f.abs() < 1e6 && !(f == 0.0 && f.is_sign_negative()) { Some(f as i32) } else { None }
+}
+
 fn to_expr_alt(e: &E, rng: &mut ChaCha8Rng) -> Expr {
     let var = |i: usize| Var { index: i };
     macro_rules! arith {
@@ -37,11 +41,29 @@ fn to_expr_alt(e: &E, rng: &mut ChaCha8Rng) -> Expr {
                         var(*i) $op *f
                     }
                 }
-                (E::Num(f), E::Var(j)) => *f $op var(*j),
+                (E::Num(f), E::Var(j)) => {
+                    if as_i32(*f).is_some() && rng.gen_bool(0.5) {
+                        as_i32(*f).unwrap() $op var(*j)
+                    } else {
+                        *f $op var(*j)
+                    }
+                }
                 (E::Var(i), _) => var(*i) $op to_expr_alt($c, rng),
                 (_, E::Var(j)) => to_expr_alt($a, rng) $op var(*j),
-                (_, E::Num(f)) => to_expr_alt($a, rng) $op *f,
-                (E::Num(f), _) => *f $op to_expr_alt($c, rng),
+                (_, E::Num(f)) => {
+                    if as_i32(*f).is_some() && rng.gen_bool(0.5) {
+                        to_expr_alt($a, rng) $op as_i32(*f).unwrap()
+                    } else {
+                        to_expr_alt($a, rng) $op *f
+                    }
+                }
+                (E::Num(f), _) => {
+                    if as_i32(*f).is_some() && rng.gen_bool(0.5) {
+                        as_i32(*f).unwrap() $op to_expr_alt($c, rng)
+                    } else {
+                        *f $op to_expr_alt($c, rng)
+                    }
+                }
                 _ => {
                     if rng.gen_bool(0.5) {
                         Expr::BinOp($bop, Box::new(to_expr_alt($a, rng)), Box::new(to_expr_alt($c, rng)))
